@@ -235,6 +235,7 @@ fn main() {
             "C13" => vharness::checks::c13::run(tier),
             "C14" => vharness::checks::c14::run(tier),
             "C15" => vharness::checks::c15::run(tier),
+            "C16" => vharness::checks::c16::run(tier),
             "C17" => vharness::checks::c17::run(tier),
             "C18" => vharness::checks::c18::run(tier),
             "C19" => vharness::checks::c19::run(tier),
